@@ -59,15 +59,21 @@ def generate(tier, rng):
         nrows = rng.randint(0 if rng.random() < 0.05 else 1, 8)
         ncol = rng.randint(1, 3)
         rows = []
+        t0 = rng.choice([0.0, 0.0, -0.02, 5e-05, 1e-05, 3.0, 1e+16])      # a listing need not start at a plain non-negative time
         for k in range(nrows):
-            rows.append([repr(k * 0.01)] + [("--undefined--" if rng.random() < 0.2 else repr(rng.choice([0.0, 1.5, 120.25, -3.0, 77.0]))) for _ in range(ncol)])
+            rows.append([repr(t0 + k * 0.01)] + [("--undefined--" if rng.random() < 0.2 else repr(rng.choice([0.0, 1.5, 120.25, -3.0, 77.0]))) for _ in range(ncol)])
         header = rng.random() < 0.5
         cases.append({"op": "listing", "rows": rows, "header": header, "ncol": ncol, "subst": rng.choice([None, None, 0, 0.0, -1.5]),
                       "dist": rows, "scale": ["int", 0]})
     for _ in range(500 if tier == "quick" else 15000):
         n = rng.randint(0, 15)
-        kind = rng.choice(["float", "int", "pitch"])
-        if kind == "float":
+        kind = rng.choice(["float", "int", "pitch", "const", "offset"])
+        if kind == "const":
+            v = [rng.choice([220.3, 0.1, 100.1, 75.0, 1e-3])] * n                 # a constant run: deviation exactly 0
+        elif kind == "offset":
+            base = rng.choice([1000000.0, 123456.7, 1e8])
+            v = [base + rng.choice([0.1, 0.2, 0.3, 0.7]) for _ in range(n)]        # small spread on a large level
+        elif kind == "float":
             v = [rng.uniform(-100, 100) for _ in range(n)]
         elif kind == "int":
             v = [float(rng.randint(-5, 5)) for _ in range(n)]
@@ -186,8 +192,20 @@ def model_expr(case):
     return None
 
 
-def _close(a, b):
-    return abs(a - b) <= 1e-9 * max(1.0, abs(a), abs(b))
+def _close(a, b, rel=1e-9):
+    return abs(a - b) <= rel * max(1.0, abs(a), abs(b))
+
+
+def _cond_tol(v):
+    """Relative tolerance for statistics of deviations from the mean: binary64 rounding of the mean is amplified by
+    level / spread (a series of small spread on a large level), so the tolerance grows with that ratio and nothing else."""
+    if len(v) < 2:
+        return 1e-9
+    m = sum(v) / len(v)
+    sd = math.sqrt(float(sum((x - m) ** 2 for x in v) / len(v)))
+    if sd == 0:
+        return 1e-9
+    return max(1e-9, 64 * 2.0 ** -53 * len(v) * float(max(abs(x) for x in v)) / sd)
 
 
 def py_checks(case, r):
@@ -225,7 +243,8 @@ def py_checks(case, r):
             m = sum(vals) / len(vals)
             var = sum((x - m) ** 2 for x in vals) / len(vals)
             exp = [float(m), float(max(vals)), float(min(vals)), float(max(vals) - min(vals)), float(var), math.sqrt(var)]
-        if not all(_close(a, b) for a, b in zip(out["pm"], exp)):
+        tol = _cond_tol(vals) if vals else 1e-9
+        if not all(_close(a, b, tol) for a, b in zip(out["pm"], exp)):
             probs.append("getPitchMeasures = %r, definitions give %r" % (out["pm"], exp))
     if "rms" in out:
         exp = math.sqrt(sum(x * x for x in v) / len(v))
@@ -239,7 +258,8 @@ def py_checks(case, r):
         else:
             m = sum(z) / n
             var = sum((x - m) ** 2 for x in z) / (n - 1)
-            if abs(float(m)) > 1e-9 or abs(float(var) - 1.0) > 1e-9:
+            tol = _cond_tol(v)
+            if abs(float(m)) > tol or abs(float(var) - 1.0) > tol:
                 probs.append("z-normalised series has mean %r and sample variance %r" % (float(m), float(var)))
             order_in = sorted(range(n), key=lambda i: (v[i], i))
             for a, b in zip(order_in, order_in[1:]):
